@@ -43,6 +43,11 @@ def run_property(P, tier, seed, replay=None):
 
     # ---- 1. proof obligations
     coq = C.coq_property(pid, getattr(P, "ALLOWED_AXIOMS", ()))
+    if tier == "thorough" and not coq["problems"]:
+        chk = C.coqchk_property(pid, getattr(P, "ALLOWED_AXIOMS", ()))
+        coq["checker_cmd"] += " ; " + chk["cmd"] + "  (independent re-check of the compiled cone; axioms of everything " \
+                              "loaded: %s)" % (chk["axioms"] or "none")
+        coq["problems"] += chk["problems"]
     # ---- 2. builds
     C.build_model_run()
     rc, out = C.build_harness()
